@@ -5,6 +5,7 @@ import (
 	"time"
 
 	"github.com/virus-evolution/gofasta/pkg/alphabet"
+	"github.com/virus-evolution/gofasta/pkg/encoding"
 	"github.com/virus-evolution/gofasta/pkg/fastaio"
 )
 
@@ -17,7 +18,7 @@ const iupac15 = "ACGTRYSWKMBDHVN"
 
 func c17Gen(r *RNG, id string) *Case {
 	c := NewCase("C17", id)
-	kinds := []string{"translate", "translate", "translate", "comp", "revcomp", "enccomp", "encrevcomp"}
+	kinds := []string{"translate", "translate", "translate", "comp", "revcomp", "enccomp", "encrevcomp", "encdec"}
 	k := r.PickStr(kinds)
 	c.Set("kind", k)
 	switch k {
@@ -39,6 +40,11 @@ func c17Gen(r *RNG, id string) *Case {
 		}
 		c.Set("seq", seq).SetBool("strict", r.Bool())
 		c.NonTrv = hasAmbig(seq)
+	case "encdec":
+		// encode / decode round trip of a record under either gap mode (hard gaps: '-' has its own code)
+		seq := randSeq(r, r.Range(0, 60), sym17+"--", true)
+		c.Set("seq", seq).SetBool("hard", r.Bool())
+		c.NonTrv = true
 	default:
 		seq := randSeq(r, r.Range(0, 60), sym17, true)
 		c.Set("seq", seq)
@@ -80,6 +86,16 @@ func execC17(r *RNG, c *Case) {
 				return a + "|" + b, nil
 			}
 			return a, nil
+		case "encdec":
+			ea := encoding.MakeEncodingArray()
+			if c.Get("hard") == "1" {
+				ea = encoding.MakeEncodingArrayHardGaps()
+			}
+			e := make([]byte, len(seq))
+			for i := 0; i < len(seq); i++ {
+				e[i] = ea[seq[i]]
+			}
+			return fastaio.EncodedFastaRecord{Seq: e}.Decode().Seq, nil
 		case "enccomp", "encrevcomp":
 			// the result is kept while further records are complemented (a batch of records, a consumer that lags): it
 			// must still be what it was
